@@ -40,20 +40,100 @@ T = {
  "C10-b": dict(property="C10",
    what="OutboundPayments::fail_htlc attaches the ReleasePaymentComplete completion action to PaymentPathFailed instead of the terminal PaymentFailed",
    needs="an outbound HTLC failed ON CHAIN on a closed channel, the user's handler answering ReplayEvent for PaymentFailed, a crash before the manager is written again",
-   checks={}, detected=[]),
+   checks={"tools/rehearse.sh seedrun C10 seeded/C10-b/patch.diff quick": "exit 0 -- MISSED: the owed-event obligation is dropped when the restart uses a manager written before the refusal, and the end-to-end payment guards exempt restarted payers (see DESIGN.md 11.6)"},
+   detected=[]),
  "C10-c": dict(property="C10",
    what="ChannelManager::from_channel_manager_data: the stale-manager force-close path no longer fails back ShutdownResult::dropped_outbound_htlcs (HTLCs that sat in the closed channel's holding cell)",
    needs="a forward waiting in the outbound channel's holding cell when the manager is written, a later monitor update on that channel that does not free the holding cell, a crash",
    checks={"tools/rehearse.sh seedrun C10 seeded/C10-c/patch.diff quick, with the `stalehold` schedule family": "exit 1, VIOLATION lines (guard group C10 at the final projection: an HTLC pending at the crash never resolves)"},
    detected=["C10 (after strengthening)"]),
+ "C03-1": dict(property="C03",
+   what="OutboundPayments::insert_from_monitor_on_startup: an HTLC found in a closed channel's monitor is no longer added to a payment the manager already holds as Retryable: PaymentFailed while an HTLC is in flight, no PaymentSent when the recipient's claim settles on chain, the payment drops out of list_recent_payments with a live HTLC",
+   needs="payer restarts from a stale manager that knows the payment but not one of its HTLCs (automatic retry or further MPP part sent since the last manager write); channel closed at restart; on-chain settlement",
+   checks={"tools/rehearse.sh seedrun2 C03 seeded/C03-1/patch.diff quick": "exit 0 -- MISSED (paynet keeps channels open and restarts stale only from idle snapshots); strengthening delegated (agent-pay2): see DESIGN.md 11.6"},
+   detected=[]),
+ "C03-2": dict(property="C03",
+   what="ChannelMonitorImpl::provide_secret prunes counterparty_fulfilled_htlcs for every HTLC of the revoked commitment (the same mechanism as seeded C10-a, found independently)",
+   needs="fulfil + commitment_signed crossing the sender's add + commitment_signed, silent peer, restart from a manager older than the fulfil, commitment buried",
+   checks={"tools/rehearse.sh seedrun2 C03 seeded/C03-2/patch.diff quick": "exit 0 -- MISSED by C03 (needs a stale restart with a closed channel)",
+           "same change as seeded C10-a": "caught by ./check C10 (crashcross schedules, needSent obligation at `fin`)"},
+   detected=["C10"]),
+ "C04-1": dict(property="C04",
+   what="inbound_payment::verify: for *CustomFinalCltv secrets the low min_final_cltv_expiry_delta byte is no longer zeroed before decoding the expiry: such secrets never expire",
+   needs="a secret created with Some(min_final_cltv_expiry_delta) and a block timestamp past creation + expiry + 7200",
+   checks={"tools/rehearse.sh seedrun2 C04 seeded/C04-1/patch.diff quick": "exit 1, VIOLATION lines (an expired secret shown as PaymentClaimable)"},
+   detected=["C04"]),
+ "C04-2": dict(property="C04",
+   what="ChannelManager::check_mpp_timeout: the 'set is complete, never time it out' test uses == instead of >=: an overshooting MPP already shown as PaymentClaimable is failed back with MPPTimeout on the next timer ticks",
+   needs="parts whose intended sum exceeds total_msat and MPP_TIMEOUT_TICKS timer ticks between claimable and claim",
+   checks={"tools/rehearse.sh seedrun2 C04 seeded/C04-2/patch.diff quick": "exit 1, VIOLATION lines"},
+   detected=["C04"]),
+ "C05-b": dict(property="C05",
+   what="FundedChannel::commitment_signed_update_monitor, 'monitor update already in progress' branch: the guard need_commitment && !is_awaiting_remote_revoke() becomes need_commitment && !monitor_pending_commitment_signed: a second, different update_add + commitment_signed is emitted for the same commitment number while the first is unrevoked",
+   needs="own commitment_signed sent with the peer's revoke_and_ack outstanding, an unrelated monitor update in flight (async persistence), a crossing commitment_signed from the peer that adds an HTLC",
+   checks={"tools/rehearse.sh seedrun4 C05 seeded/C05-b/patch.diff quick (first version)": "exit 0 -- MISSED",
+           "tools/trial.sh seedrun3 seeded/C05-b/patch.diff <asynccross scripts>": "rejected (run 1: the same update_add_htlc id sent a second time outside a retransmission); same scripts accepted on the unchanged tree; family added to C05 and C09"},
+   detected=["C05 (after strengthening)", "C09 (after strengthening)"]),
+ "C05-c": dict(property="C05",
+   what="ChannelManager deserialization, handle_in_flight_updates!: 'all in-flight monitor updates completed' is decided from the first in-flight update only: the replay of the lost tail is skipped and the node revokes a commitment its monitor still holds as latest",
+   needs="async persistence, >= 2 in-flight updates, a crash after only a prefix reached the disk",
+   checks={"tools/rehearse.sh seedrun4 C05 seeded/C05-c/patch.diff quick (first version)": "exit 0 -- MISSED (C05 ran no restarts from snapshots written while writes were in flight; and Durable() did not require the write to have landed)",
+           "tools/trial.sh seedrun3 seeded/C05-c/patch.diff <inflight scripts>": "rejected (run 206: revoke_and_ack released after a restart although its monitor update neither landed nor was replayed; then LDK's own 'updates out of order' panic); accepted on the unchanged tree; family added to C05, attribution of release-before-durable after a crash extended to C10"},
+   detected=["C05 (after strengthening)", "C10 (after strengthening)"]),
+ "C06-1": dict(property="C06",
+   what="package.rs get_height_timer, RevokedOutput arm: cmp::max instead of cmp::min: justice claims are re-bumped only every 15 blocks and never accelerate as the CSV expiry nears",
+   needs="the justice transaction stays unconfirmed until within 15 blocks of conf_height + to_self_delay",
+   checks={}, detected=[]),
+ "C06-2": dict(property="C06",
+   what="package.rs feerate_bump, HighestOfPreviousOrNew arm: comparison flipped: rebroadcast_pending_claims keeps the stale feerate for self-funded justice claims when the estimate has risen",
+   needs="the estimator rises between the first broadcast and a rebroadcast_pending_claims() call while the justice transaction is unconfirmed",
+   checks={}, detected=[]),
+ "C09-b": dict(property="C09",
+   what="get_update_fulfill_htlc_and_commit: a preimage update that jumps ahead of held updates takes its id from blocked_monitor_updates.last() instead of .get(0): update ids reach Persist out of order",
+   needs=">= 2 blocked updates on a channel (a revocation update held behind an unhandled PaymentSent event plus the update of a later commitment_signed) when a preimage is learned for that channel",
+   checks={"tools/rehearse.sh seedrun C09 seeded/C09-b/patch.diff quick (first version)": "exit 0 -- MISSED (the user never refused an event)",
+           "tools/trial.sh seedrun seeded/C09-b/patch.diff <blockedjump scripts>": "106 of 300 runs panic ('ChannelMonitorUpdates out of order') / are rejected at the gap-free-id guard; accepted on the unchanged tree; needs the new hold_events (ReplayEvent) support of channet"},
+   detected=["C09 (after strengthening)"]),
+ "C09-c": dict(property="C09",
+   what="check_get_channel_ready: the 'peer disconnected -> None' and 'monitor update in progress -> remember channel_ready as pending' guards are swapped: channel_ready is never sent after the write completes (and leaks at channel_reestablish while it is pending)",
+   needs="inbound channel whose first monitor write is InProgress, peers disconnected when the funding transaction reaches its depth",
+   checks={"tools/rehearse.sh seedrun C09 seeded/C09-c/patch.diff quick (first version)": "exit 0 -- MISSED",
+           "tools/trial.sh seedrun2 seeded/C09-c/patch.diff <opendisc scripts>": "rejected (a channel whose funding is buried is not ready at the end of a wound-down run: 'exactly the held messages are released'); accepted on the unchanged tree"},
+   detected=["C09 (after strengthening)"]),
+ "C11-1": dict(property="C11",
+   what="ChannelMonitorImpl::best_block_updated, reorg branch: retain(entry.height <= height) became < height: a reorg delivered through Confirm::best_block_updated also drops pending on-chain events of the block it lands on",
+   needs="a shallow reorg reported via best_block_updated landing exactly on the block where a commitment / HTLC / claim transaction confirmed < 6 blocks ago",
+   checks={"tools/rehearse.sh seedrun2 C11 seeded/C11-1/patch.diff quick": "exit 1, 48 VIOLATION lines"}, detected=["C11"]),
+ "C11-2": dict(property="C11",
+   what="ChannelMonitor::get_onchain_failed_outbound_htlcs: the depth check is always true: an outbound HTLC missing from the closing commitment is failed back at startup before that commitment is buried",
+   needs="a restart while the closing commitment has 1-5 confirmations",
+   checks={"tools/rehearse.sh seedrun2 C11 seeded/C11-2/patch.diff quick": "exit 1, 16 VIOLATION lines"}, detected=["C11"]),
+ "C12-1": dict(property="C12",
+   what="impl Writeable for FundedChannel: a non-funder's pending fee update in state AwaitingRemoteRevokeToAnnounce is dropped on write (the match arm names RemoteAnnounced)",
+   needs="the funder's update_fee + commitment_signed crossing the non-funder's own update; manager written and re-read in that window",
+   checks={"tools/rehearse.sh seedrun3 C12 seeded/C12-1/patch.diff quick (first version)": "exit 0 -- MISSED (random reload points rarely fall into the window)",
+           "tools/trial.sh seedrun4 seeded/C12-1/patch.diff <feecross scripts>": "rejected (run 1: the re-read node signs with feerate 253 where its own history prescribes 1000); accepted on the unchanged tree; a rejection after a clean reload is now attributed to C12 as well"},
+   detected=["C12 (after strengthening)"]),
+ "C12-2": dict(property="C12",
+   what="impl Readable for ChannelLiquidity: offset_history_last_updated restored from TLV 11 in preference to TLV 9: a scorer written after its buckets decayed decays them a second time after reload",
+   needs="time_passed has decayed a channel's historical buckets before the scorer is written; another time_passed after the read",
+   checks={"tools/rehearse.sh seedrun3 C12 seeded/C12-2/patch.diff quick (first version)": "exit 0 -- MISSED (the scorer was written once, fresh)",
+           "channet default profile on a scratch copy with the patch, after extending the scorer round trip (decay, write in the decayed state, more decay, further datapoints)": "150 of 150 runs report answers_equal = false (0 of 150 on the unchanged tree)"},
+   detected=["C12 (after strengthening)"]),
  "C07-1": dict(property="C07",
    what="ChannelMonitorImpl::provide_payment_preimage: a claim generated for a counterparty commitment with < 6 confirmations records the current height as the outpoint's creation height; a reorg of the tip only then drops the claim for good",
    needs="counterparty commitment confirmed, 1-4 blocks, preimage arrives, claim broadcast but not mined, reorg of the tip that leaves the commitment confirmed",
-   checks={}, detected=[]),
+   checks={"tools/rehearse.sh seedrun2 C07 seeded/C07-1/patch.diff quick (first version)": "exit 0 -- MISSED (no reorgs in the on-chain engine)",
+           "tools/rehearse.sh seedrun3 C11 seeded/C07-1/patch.diff quick (first version)": "exit 0 -- MISSED (a broad waiver for lost pending claims hid it)",
+           "C07 after adding tip reorgs + RebroadcastCovers (agent-onchain2)": "exit 1, 15 VIOLATION lines (counterparty-fresh path)",
+           "C11 after adding late-preimage histories and keying the lost-claim finding by path (agent-c11)": "exit 1, 5 VIOLATION lines (KnownPreimageHtlcIsClaimed)"},
+   detected=["C07 (after strengthening)", "C11 (after strengthening)"]),
  "C07-2": dict(property="C07",
    what="PackageTemplate::compute_package_feerate (ForceBump): the clamp loses its max(.., previous_feerate) floor; an anchor claim is bumped with a LOWER feerate when the estimate falls below 1/5 of the previous one",
    needs="anchor channel, holder package unconfirmed after a bump interval, fee estimate dropping sharply",
-   checks={}, detected=[]),
+   checks={"tools/rehearse.sh seedrun2 C07 seeded/C07-2/patch.diff quick (first version)": "exit 0 -- MISSED (bump events of one claim were not compared; no collapsing fee trajectories)",
+           "C07 after the rule 'target feerate of successive BumpTransactionEvents of one claim never decreases' and fee-collapse schedules (agent-onchain2)": "exit 1, 20 VIOLATION lines at `bump` events"},
+   detected=["C07 (after strengthening)"]),
  "C08-1": dict(property="C08",
    what="ChannelManager::can_forward_htlc_should_intercept: the CLTV-delta check uses the configured cltv_expiry_delta un-floored instead of MIN_CLTV_EXPIRY_DELTA",
    needs="forwarder configured with cltv_expiry_delta < 48 and an onion that leaves it fewer than 48 blocks",
